@@ -417,6 +417,36 @@ def defines(prog, cls, name):
                    for c in prog.mro(cls)[1:])
 
 
+def ctor_wiring(run, prog, cls, rule):
+    """Constructor arguments reach the attributes named after them: when a class keeps a public attribute
+    with the name of one of its constructor parameters, the value left there by __init__ (with the base
+    constructors inlined) must be built from that very argument.  A subclass that accepts the argument but does
+    not forward it -- so that a base-class default lands in the attribute -- is refuted."""
+    owner, fn = prog.find_method(cls, "__init__")
+    if fn is None:
+        return 0
+    try:
+        s = prog.summarise(cls, "__init__")
+    except ir.Unsupported:
+        return 0
+    a = fn.args
+    params = [x.arg for x in a.posonlyargs + a.args][1:] + [x.arg for x in a.kwonlyargs]
+    n = 0
+    for pname in params:
+        if pname.startswith("_") or pname not in s.fields:
+            continue
+        n += 1
+        v = s.fields[pname]
+        ok = ("param", pname) in ir.subterms(v)
+        run.check(ok, rule, f"{cls.name}.ctor.{pname}", f"{s.path}:{fn.lineno}", f"{cls.name}.__init__",
+                  f"self.{pname} = {ir.show_nl(v)[:100]}",
+                  f"the constructor argument `{pname}` does not reach the attribute of the same name: after "
+                  f"{cls.name}.__init__ self.{pname} is {ir.show_nl(v)[:140]} whatever the caller passes (an argument "
+                  f"that is accepted but not forwarded to the base constructor leaves the base default in place)",
+                  f"self.{pname} is built from the argument {pname}")
+    return n
+
+
 def explainer_classes(prog):
     """Concrete classes offering explain_one (discovered, not listed)."""
     out = []
